@@ -440,6 +440,17 @@ class Gen:
             else:
                 for b in bodies:
                     prog += b
+        # hostile endings (rare): a conditional branch, or a call, as the very last instruction
+        if self.p["hostile_layout"] and prog and prog[-1] == ("return",) and len(prog) >= 2 and prog[-2] == ("int", 1):
+            in_main_tail = (not self.subs) or ("subs_first" in self.features)
+            if in_main_tail and self.chance(0.06):
+                top = self.lab("TOP")
+                # `TOP: int 1; txn NumAppArgs; bnz TOP` : falls off the end with [1] when NumAppArgs == 0
+                prog = prog[:-2] + [("label", top), ("int", 1), ("txn", "NumAppArgs"), ("bnz", top)]
+                self.features.add("branch_as_last_instruction")
+            elif "subs_first" in self.features and self.subs and self.chance(0.1):
+                prog = prog[:-1] + [("callsub", self.subs[0])]
+                self.features.add("call_as_last_instruction")
         if self.intc_vals:
             prog = [tuple(["intcblock"] + self.intc_vals)] + prog
         if self.use_intc and not self.intc_vals:
